@@ -38,6 +38,7 @@ type runTarget struct {
 	target  Target
 	changed bool
 	data    string
+	run     string
 }
 
 func (t *runTarget) Evaluate(engine runner.Engine) error {
@@ -45,6 +46,7 @@ func (t *runTarget) Evaluate(engine runner.Engine) error {
 
 	// Copy the current version of the data.
 	t.data = info.Data
+	t.run = info.Run
 
 	// Evaluate the target's dependencies.
 	depsUpToDate := true
@@ -65,6 +67,10 @@ func (t *runTarget) Evaluate(engine runner.Engine) error {
 		label := deps[i]
 
 		newData := dep.Target.(*runTarget).data
+		if run := dep.Target.(*runTarget).run; run != "" {
+			// The stamp of a function target does not change when it re-executes; its run does.
+			newData += "#" + run
+		}
 		depData[label] = newData
 
 		prevData, ok := info.Dependencies[label]
@@ -126,11 +132,13 @@ func (t *runTarget) Evaluate(engine runner.Engine) error {
 	t.changed = changed
 	if changed {
 		t.data = data
+		t.run = newRunID()
 	}
 	err = proj.saveTargetInfo(label, targetInfo{
 		Doc:          t.target.Doc(),
 		Dependencies: depData,
 		Data:         t.data,
+		Run:          t.run,
 	})
 	if err != nil {
 		proj.events.TargetFailed(label, err)
